@@ -266,7 +266,7 @@ def replay_variant(prop, crate, i, d, mm, widths_fn):
         script = (list(mm['concrete'].get('script') or []) if mm.get('concrete') else []) + [0] * 8
     base = [C.drv_line(i, rho0, False, 0, len(w) + 2, 0, 255, script, list(w)) for w in words]
     base_out = crate.native_run(base)
-    variants = [(c, 255) for c in (1, 2, 3)] if prop == 'C14' else [(0, k) for k in (0, 1, 2)]
+    variants = [(c, 255) for c in (1, 2, 3)] if prop == 'C14' else [(0, k) for k in (0, 1, 2)] + [(0, 100 + k) for k in (0, 1, 2)]
     for ctor, clone_at in variants:
         lines = [C.drv_line(i, rho0, False, 0, len(w) + 2, ctor, clone_at, script, list(w)) for w in words]
         outs = crate.native_run(lines)
